@@ -57,7 +57,8 @@ def check_logical(kind, value, form):
         segs = parse_sized(out)
     except RP.PathError as e:
         return [Disc(f"logical.malformed.{kind}.{_wclass(value, width)}", f"{kind} {value:#x} ({form}) -> {out.hex()}: {e}")]
-    if len(segs) != 1 or segs[0][0] != kind or segs[0][1] != value or (width is not None and segs[0][2] != width):
+    # the property speaks of numbers: a value handed over as 2 or 4 bytes may be emitted in any format that holds it
+    if len(segs) != 1 or segs[0][0] != kind or segs[0][1] != value:
         return [Disc(f"logical.value.{kind}.{_wclass(value, width)}", f"{kind} {value:#x} ({form}) -> {out.hex()} parses as {segs}")]
     return []
 
